@@ -55,6 +55,9 @@ static void thr_case(Toks& tk, Out& out, Params params, std::size_t ncells)
                     .SetNumberOfGridCells((int)ncells)
                     .Build();
   using StateT = decltype(solver.GetState());
+  // one State prepared before the threads start; threads with an odd number take their States as copies of it
+  // (a copy is a State of its own: nothing may be shared with the original or with the other copies)
+  const StateT prepared = solver.GetState();
 
   auto work = [&](int t, std::vector<Record>& recs)
   {
@@ -62,7 +65,12 @@ static void thr_case(Toks& tk, Out& out, Params params, std::size_t ncells)
     for (int r = 0; r < rounds; ++r)
     {
       if (r % 2 == 0)
-        st.emplace(solver.GetState());
+      {
+        if (t % 2 == 1)
+          st.emplace(prepared);
+        else
+          st.emplace(solver.GetState());
+      }
       unsigned long long h = (unsigned long long)seed * 1000003ull + (unsigned long long)t * 7919ull + (unsigned long long)r * 104729ull;
       auto next = [&]()
       {
